@@ -24,7 +24,23 @@ import (
 	"verif/harness/internal/rep"
 )
 
-func TestMain(m *testing.M) { rep.Main(m) }
+func TestMain(m *testing.M) {
+	// every verifier / folder call of the adapter is followed by a bit-level input-purity check; with
+	// KZGRepeat each call is also made twice on the same native proof / digests / key
+	inst.KZGRepeat = true
+	rep.Main(m)
+}
+
+// purityCls labels a case whose verifier calls went through the adapter's purity checks.
+func purityCls() []string {
+	if inst.KZGPurityChecks() == 0 {
+		return nil
+	}
+	if inst.KZGRepeat {
+		return []string{"purity:proof_after_verify", "purity:same_call_repeated"}
+	}
+	return []string{"purity:proof_after_verify"}
+}
 
 func selected(name string) bool {
 	p := os.Getenv("VERIF_INST")
